@@ -641,4 +641,54 @@ theorem setAll_perm {as as' : Assigns} (hn : (as.map (·.1)).Nodup) (h : as.Perm
   rw [setAll_eq, setAll_eq, lastVal_perm hn h]
 
 
+
+/-! ### sorting with a key function: permutation-invariant exactly when distinct elements never tie -/
+
+theorem insertByKey_comm (key : Nat → Nat) (a b : Nat) (h : key a = key b → a = b) (l : List Nat) :
+    insertByKey key a (insertByKey key b l) = insertByKey key b (insertByKey key a l) := by
+  by_cases hab : a = b
+  · subst hab; rfl
+  · have hk : key a ≠ key b := fun e => hab (h e)
+    induction l with
+    | nil => simp only [insertByKey]; split <;> split <;> simp_all <;> omega
+    | cons c l ih =>
+      simp only [insertByKey]
+      by_cases h1 : key b ≤ key c <;> by_cases h2 : key a ≤ key c <;>
+        simp only [h1, h2, if_true, if_false, insertByKey, ih] <;> (repeat' split) <;> simp_all <;> omega
+
+theorem mem_insertByKey {key : Nat → Nat} {a x : Nat} {l : List Nat} : x ∈ insertByKey key a l ↔ x = a ∨ x ∈ l := by
+  induction l with
+  | nil => simp [insertByKey]
+  | cons b l ih => simp only [insertByKey]; split <;> simp [ih] <;> grind
+
+theorem mem_isortBy {key : Nat → Nat} {x : Nat} {l : List Nat} : x ∈ isortBy key l ↔ x ∈ l := by
+  induction l with
+  | nil => simp [isortBy]
+  | cons a l ih => simp [isortBy, mem_insertByKey, ih]
+
+/-- a keyed sort forgets the order of its input PROVIDED the key is injective on the elements being sorted -/
+theorem isortBy_perm (key : Nat → Nat) {xs ys : List Nat} (h : xs.Perm ys)
+    (hinj : ∀ a ∈ xs, ∀ b ∈ xs, key a = key b → a = b) : isortBy key xs = isortBy key ys := by
+  induction h with
+  | nil => rfl
+  | cons a _ ih =>
+    simp only [isortBy]
+    rw [ih (fun x hx y hy => hinj x (List.mem_cons_of_mem _ hx) y (List.mem_cons_of_mem _ hy))]
+  | swap a b l =>
+    simp only [isortBy]
+    exact insertByKey_comm key b a (hinj b (by simp) a (by simp)) _
+  | trans h1 _ ih1 ih2 =>
+    rw [ih1 hinj, ih2 (fun x hx y hy => hinj x (h1.mem_iff.mpr hx) y (h1.mem_iff.mpr hy))]
+
+theorem isortBy_id (l : List Nat) : isortBy id l = isort l := by
+  induction l with
+  | nil => rfl
+  | cons a l ih =>
+    simp only [isortBy, isort, ih]
+    generalize isort l = m
+    induction m with
+    | nil => rfl
+    | cons b m ihm => simp only [insertByKey, insertSorted, id, ihm]
+
+
 end SqlglotModel.Determinism
